@@ -26,6 +26,12 @@ func main() {
 	if !res.Exhaustive {
 		r.MarkCapped()
 	}
+	// the zero value of V as a stored value (it must not read as "absent")
+	if res0 := seqmc.Explore(r, seqmc.Config{Name: "map-sequential/values 0 and 2", New: func() seqmc.Sys { return maph.NewVals(3, 0, 2) }}); !res0.Exhaustive {
+		r.MarkCapped()
+	} else {
+		r.Set("zero_value_states", res0.States)
+	}
 	// key types whose keys have several ==-equal spellings (+0.0/-0.0, equal strings in different
 	// memory, interfaces / structs / arrays holding them), pointers, int8: the same search over 2 keys
 	run := func(cfg seqmc.Config) seqmc.Result { return seqmc.Explore(r, cfg) }
